@@ -50,6 +50,7 @@ struct H {
             L_lock(id);
             long inst = ++instance_counter;
             waiting[id] = 1; wait_instance[id] = inst; qstate[id] = 0; proven[id] = 0;
+            if (getenv("C03_DEBUG")) fprintf(stderr, "[c03] t=%lu actor%d wait start inst %ld tmo %ld\n", (unsigned long)ctl.vnow, id, inst, tmo);
             deadline[id] = tmo < 0 ? 0 : photon::now + (uint64_t)std::max<long>(tmo, 0);
             if (tmo == 0) deadline[id] = 1;    // already expired
             C.st[id].phase = "cv.wait"; C.st[id].phase_arg = tmo;
@@ -61,6 +62,7 @@ struct H {
             if (!L_held_by_me()) ctl.violation("actor" + std::to_string(id) + ": cv.wait returned without holding the lock");
             if (holder != -1) ctl.violation("actor" + std::to_string(id) + ": cv.wait returned while actor" + std::to_string(holder) + " holds the lock");
             holder = id;
+            if (getenv("C03_DEBUG")) fprintf(stderr, "[c03] t=%lu actor%d wait returned %d\n", (unsigned long)ctl.vnow, id, ret);
             waiting[id] = 0; proven[id] = 0;
             if (ret == 0) {
                 waits_ok++;
@@ -97,6 +99,7 @@ struct H {
                     if (!unlocked_overlap && qstate[j] == 0 && (deadline[j] == 0 || deadline[j] > ctl.vnow + 2)) sure.push_back(j); else maybe.push_back(j);
                 }
             };
+            std::vector<long> inst_before(wait_instance.begin(), wait_instance.end());   // a notifier without the lock can be overtaken: the waiter it dequeued may already be in its NEXT wait when the call returns here
             if (!all) {
                 // untimed waiters that are certainly queued and not yet dequeued by anybody, at the start of this call
                 std::vector<int> settled;
@@ -114,6 +117,7 @@ struct H {
                                   ") and only " + std::to_string(competitors) + " other notify_one call(s) overlapped it");
                 if (settled.size() >= 2 && competitors >= 1) { nt = true; labels.insert("two_notify_one_calls_raced_over_two_waiters"); }
                 classify();
+                if (getenv("C03_DEBUG")) { fprintf(stderr, "[c03] t=%lu actor%d notify_one(%s) -> actor%d ; cand:", (unsigned long)ctl.vnow, id, locked ? "locked" : "no lock", t ? actor_of(t) : -1); for (int j : cand) fprintf(stderr, " %d", j); fprintf(stderr, " waiting:"); for (int j = 0; j < C.nactors(); j++) fprintf(stderr, " %d/%d", (int)waiting[j], qstate[j]); fprintf(stderr, "\n"); }
                 if (t) notified_total++;
                 if (locked) {
                     if (!t && !sure.empty()) ctl.violation("notify_one() returned nobody although actor" + std::to_string(sure[0]) + " released the lock into the wait before this notifier acquired it");
@@ -127,7 +131,7 @@ struct H {
                 } else if (t) {
                     int j = actor_of(t);
                     if (j < 0) ctl.violation("notify_one() returned an unknown thread");
-                    if (waiting[j]) qstate[j] = 1;
+                    if (waiting[j] && wait_instance[j] == inst_before[j]) qstate[j] = 1;
                 }
             } else {
                 notify_in_flight += C.nactors();
@@ -138,7 +142,7 @@ struct H {
                 classify();
                 if (n < 0 || n > C.nactors()) ctl.violation("notify_all() returned " + std::to_string(n));
                 notified_total += n;
-                if (!locked && n > 0) for (int j = 0; j < C.nactors(); j++) if (waiting[j] && qstate[j] == 0) qstate[j] = 2;
+                if (!locked && n > 0) for (int j = 0; j < C.nactors(); j++) if (waiting[j] && qstate[j] == 0 && wait_instance[j] == inst_before[j]) qstate[j] = 2;
                 if (locked) {
                     if (n < (int)sure.size() || n > (int)(sure.size() + maybe.size()))
                         ctl.violation("notify_all() woke " + std::to_string(n) + " waiters; " + std::to_string(sure.size()) + " were surely waiting and " + std::to_string(maybe.size()) + " possibly");
